@@ -17,28 +17,48 @@ interface Iface { x: Int }
 union Uni = Obj | Other
 enum En { V W }";
 
-pub fn render_sels(sels: &J, out: &mut String) {
+/// Directives of a selection: the model's explicit conditions when present (one more element before `included`),
+/// otherwise `@skip(if: true)` for `included = false`.
+fn directives_of(s: &J, base: usize, vars: &mut Vec<String>) -> String {
+    let n = s.as_array().unwrap().len();
+    if n == base + 1 {
+        let mut d = String::new();
+        for c in s[n - 2].as_array().unwrap() {
+            let arg = if c[1][0] == "lit" { c[1][1].to_string() } else {
+                let v = c[1][1].as_str().unwrap().to_string();
+                if !vars.contains(&v) { vars.push(v.clone()); }
+                format!("${v}")
+            };
+            d.push_str(&format!(" @{}(if: {})", c[0].as_str().unwrap(), arg));
+        }
+        d
+    } else if s[n - 1].as_bool().unwrap() { String::new() } else { " @skip(if: true)".to_string() }
+}
+
+pub fn render_sels(sels: &J, out: &mut String, vars: &mut Vec<String>) {
     for s in sels.as_array().unwrap() {
-        let n = s.as_array().unwrap().len();
-        let included = s[n - 1].as_bool().unwrap();
-        let dir = if included { "" } else { " @skip(if: true)" };
         match s[0].as_str().unwrap() {
             "field" => {
+                let dir = directives_of(s, 5, vars);
                 let (key, name) = (s[1].as_str().unwrap(), s[2].as_str().unwrap());
                 if key == name { out.push_str(&format!(" {name}{dir}")); } else { out.push_str(&format!(" {key}: {name}{dir}")); }
                 if !s[3].as_array().unwrap().is_empty() {
                     out.push_str(" {");
-                    render_sels(&s[3], out);
+                    render_sels(&s[3], out, vars);
                     out.push_str(" }");
                 }
             }
             "inline" => {
+                let dir = directives_of(s, 4, vars);
                 let on = s[1].as_str().unwrap();
                 if on.is_empty() { out.push_str(&format!(" ...{dir} {{")); } else { out.push_str(&format!(" ... on {on}{dir} {{")); }
-                render_sels(&s[2], out);
+                render_sels(&s[2], out, vars);
                 out.push_str(" }");
             }
-            _ => out.push_str(&format!(" ...{}{dir}", s[1].as_str().unwrap())),
+            _ => {
+                let dir = directives_of(s, 3, vars);
+                out.push_str(&format!(" ...{}{dir}", s[1].as_str().unwrap()))
+            }
         }
     }
 }
@@ -61,20 +81,39 @@ fn used_fragments(sels: &J, frags: &J, acc: &mut Vec<String>) {
     }
 }
 
+/// Variables of the model: `$t: Boolean!` (given true), `$f: Boolean!` (given false), `$d: Boolean = true` (not given).
 pub fn render_op(kind: &str, sels: &J, frags: &J) -> String {
-    let mut out = format!("{kind} {{");
-    render_sels(sels, &mut out);
-    out.push_str(" }");
+    let mut vars: Vec<String> = vec![];
+    let mut body = String::from(" {");
+    render_sels(sels, &mut body, &mut vars);
+    body.push_str(" }");
     let mut used = vec![];
     used_fragments(sels, frags, &mut used);
     for name in used {
         if let Some(f) = frags.get(&name) {
-            out.push_str(&format!(" fragment {name} on {} {{", f["on"].as_str().unwrap()));
-            render_sels(&f["sels"], &mut out);
-            out.push_str(" }");
+            body.push_str(&format!(" fragment {name} on {} {{", f["on"].as_str().unwrap()));
+            render_sels(&f["sels"], &mut body, &mut vars);
+            body.push_str(" }");
         }
     }
-    out
+    let decl = if vars.is_empty() { String::new() } else {
+        format!("({})", vars.iter().map(|v| if v == "d" { "$d: Boolean = true".to_string() } else { format!("${v}: Boolean!") }).collect::<Vec<_>>().join(", "))
+    };
+    format!("{kind}{decl}{body}")
+}
+
+/// The request's variables through the REAL CoerceVariableValues: t = true, f = false, d left to its default.
+pub fn variables_for(schema: &Valid<Schema>, doc: &Valid<ExecutableDocument>) -> Result<Valid<JsonMap>, String> {
+    let op = doc.operations.get(None).map_err(|e| format!("tool: {e:?}"))?;
+    let mut given = JsonMap::new();
+    for v in &op.variables {
+        match v.name.as_str() {
+            "t" => { given.insert("t", true.into()); }
+            "f" => { given.insert("f", false.into()); }
+            _ => {}
+        }
+    }
+    apollo_compiler::request::coerce_variable_values(schema, op, &given).map_err(|e| format!("tool: variable coercion: {e:?}"))
 }
 
 pub struct W {
@@ -177,7 +216,7 @@ pub fn replay(_args: &[String]) {
             let (schema, doc, text) = prepare(kind, &v[3], &v[4])?;
             let world = Arc::new(v[5].clone());
             let root = W { type_name: if kind == "mutation" { "Mutation".into() } else { "Query".into() }, world, log: None };
-            let vars = Valid::assume_valid(JsonMap::new());
+            let vars = variables_for(&schema, &doc)?;
             let resp = Execution::new(&schema, &doc).coerced_variable_values(&vars).execute_sync(&root).map_err(|e| format!("request error: {e:?}"))?;
             let (data, errs) = abstract_response(&resp);
             Ok::<_, String>((data, errs, text))
@@ -232,7 +271,8 @@ fn random_sels(rng: &mut Rng, t: &str, depth: usize, keyc: &mut usize) -> J {
             if on == "JustOther" {
                 sels.push(json!(["spread", "K", true]));
             } else {
-                sels.push(json!(["inline", on, random_sels(rng, inner, depth, keyc), rng.chance(7, 8)]));
+                let inner_sels = random_sels(rng, inner, depth, keyc);
+                sels.push(with_conds(rng, json!(["inline", on, inner_sels]), 8));
             }
             continue;
         }
@@ -241,7 +281,7 @@ fn random_sels(rng: &mut Rng, t: &str, depth: usize, keyc: &mut usize) -> J {
             continue;
         }
         if choice == 2 && t == "Obj" {
-            sels.push(json!(["spread", "G", true]));
+            sels.push(with_conds(rng, json!(["spread", "G"]), 6));
             continue;
         }
         if choice == 2 && matches!(t, "Iface") {
@@ -249,7 +289,8 @@ fn random_sels(rng: &mut Rng, t: &str, depth: usize, keyc: &mut usize) -> J {
             continue;
         }
         if choice == 3 {
-            sels.push(json!(["inline", "", random_sels(rng, t, depth, keyc), rng.chance(7, 8)]));
+            let inner_sels = random_sels(rng, t, depth, keyc);
+            sels.push(with_conds(rng, json!(["inline", "", inner_sels]), 8));
             continue;
         }
         let (f, nt, composite) = *rng.pick(fs);
@@ -260,12 +301,42 @@ fn random_sels(rng: &mut Rng, t: &str, depth: usize, keyc: &mut usize) -> J {
         // a fresh alias avoids merge conflicts; sometimes the plain name (merging of the same field)
         let key = if rng.chance(1, 3) { f.to_string() } else { format!("k{}", *keyc) };
         let subs = if composite { random_sels(rng, nt, depth - 1, keyc) } else { json!([]) };
-        sels.push(json!(["field", key, f, subs, rng.chance(9, 10)]));
+        sels.push(with_conds(rng, json!(["field", key, f, subs]), 10));
     }
     if sels.is_empty() {
         sels.push(json!(["field", "__typename", "__typename", [], true]));
     }
     J::Array(sels)
+}
+
+/// Completes a selection: mostly unconditional (`included = true`), one in `k` skipped the old way (`included = false`,
+/// rendered `@skip(if: true)`), and one in four with explicit @skip / @include directives over literals and the
+/// variables t (true), f (false), d (default true) - inclusion is then decided by the specification, not here.
+fn with_conds(rng: &mut Rng, mut s: J, k: usize) -> J {
+    let a = s.as_array_mut().unwrap();
+    if rng.chance(1, 4) {
+        let mut conds = vec![];
+        for _ in 0..rng.range(1, 2) {
+            let dir = *rng.pick(&["skip", "include"]);
+            if conds.iter().any(|c: &J| c[0] == dir) {
+                continue; // @skip / @include are not repeatable
+            }
+            // biased towards "keeps the selection" so that deeper parts of the operation still run
+            let keep = rng.chance(2, 3);
+            let val = (dir == "include") == keep;
+            let arg = match rng.below(3) {
+                0 => json!(["lit", val]),
+                1 if val && rng.chance(1, 2) => json!(["var", "d"]),
+                _ => json!(["var", if val { "t" } else { "f" }]),
+            };
+            conds.push(json!([dir, arg]));
+        }
+        a.push(J::Array(conds));
+        a.push(json!(true));
+    } else {
+        a.push(json!(!rng.chance(1, k)));
+    }
+    s
 }
 
 fn random_outcome(rng: &mut Rng, composite: bool, list_depth: usize) -> J {
@@ -340,14 +411,20 @@ pub fn record(args: &[String]) {
         let world = random_world(&mut rng);
         let r = guarded(|| {
             let root = W { type_name: if kind == "mutation" { "Mutation".into() } else { "Query".into() }, world: Arc::new(world.clone()), log: None };
-            let vars = Valid::assume_valid(JsonMap::new());
+            let vars = variables_for(&schema, &doc).ok()?;
             let resp = Execution::new(&schema, &doc).coerced_variable_values(&vars).execute_sync(&root).ok()?;
-            Some(abstract_response(&resp))
+            // what the executor was given, for the specification: the coerced values (plus a dummy so that the record is never empty)
+            let mut vj = serde_json::Map::new();
+            vj.insert("_".into(), json!(false));
+            for (k, v) in vars.iter() {
+                vj.insert(k.as_str().to_string(), serde_json::to_value(v).unwrap());
+            }
+            Some((abstract_response(&resp), J::Object(vj)))
         });
         match r {
-            Ok(Some((data, errs))) => out.line(&json!({"kind": kind, "sels": sels, "fragments": frags, "world": world, "data": data, "errors": errs, "crash": false})),
+            Ok(Some(((data, errs), vars))) => out.line(&json!({"kind": kind, "sels": sels, "fragments": frags, "world": world, "vars": vars, "data": data, "errors": errs, "crash": false})),
             Ok(None) => continue,
-            Err(_) => out.line(&json!({"kind": kind, "sels": sels, "fragments": frags, "world": world, "data": ["null"], "errors": [], "crash": true})),
+            Err(_) => out.line(&json!({"kind": kind, "sels": sels, "fragments": frags, "world": world, "vars": {"_": false}, "data": ["null"], "errors": [], "crash": true})),
         }
         emitted += 1;
     }
